@@ -228,11 +228,12 @@ def pure_stdlib():
     """pure helper modules of the standard library that extracted code may use whatever the sidecar anticipated (a refactoring may
     introduce e.g. collections.defaultdict or itertools.chain); applied to symbolic proxies they raise TypeError -> undecided"""
     import collections
+    import contextlib
     import functools
     import itertools
     import operator
 
-    return {"collections": collections, "itertools": itertools, "functools": functools, "operator": operator}
+    return {"collections": collections, "itertools": itertools, "functools": functools, "operator": operator, "contextlib": contextlib}
 
 
 def pure_stdlib_from_imports():
@@ -274,7 +275,7 @@ def _select_alternative(obs):
     """Disjunctive proof attempts: a sidecar may offer several candidate invariants for one loop through a decision whose label starts
     with ``alt:`` (each candidate is a separate set of paths and is checked completely: establish, preserve, everything that follows).
     The proof stands if ONE candidate discharges all of its obligations; the obligations of the other candidates are then dropped.  If
-    none does, the obligations of the first candidate are reported (so a refutation is reported against the primary invariant)."""
+    none does, the obligations of the candidate with the fewest undischarged obligations are reported (the primary one on a tie)."""
     groups = {}
     for ob in obs:
         for lab in ob.path:
@@ -283,7 +284,14 @@ def _select_alternative(obs):
     if len(groups) < 2:
         return obs
     keys = sorted(groups)
-    winner = next((k for k in keys if all(o.verdict == "discharged" for o in groups[k])), keys[0])
+    winner = next((k for k in keys if all(o.verdict == "discharged" for o in groups[k])), None)
+    if winner is None:
+        # no candidate proves the loop: report the candidate that comes closest (fewest undischarged obligations; the primary one on a tie), so
+        # that the message names what is wrong with the code rather than why a candidate of another loop shape does not even start
+        def missing(k):
+            return sum(1 for o in groups[k] if o.verdict != "discharged")
+
+        winner = min(keys, key=lambda k: (missing(k), keys.index(k)))
     drop = {id(o) for k in keys if k != winner for o in groups[k]}
     return [o for o in obs if id(o) not in drop]
 
